@@ -583,6 +583,93 @@ def through_getters(crate, term, depth=0):
     return sub(term)
 
 
+def mentions_local_named(b, term, name):
+    """does the term mention a local / argument / projection carrying source name `name`?"""
+    def pred(x):
+        if not isinstance(x, tuple) or not x:
+            return False
+        if x[0] == 'arg' and x[2] == name:
+            return True
+        if x[0] == 'field' and x[2] == name:
+            return True
+        if x[0] == 'local' and b.name_of(x[1]) == name:
+            return True
+        return False
+    return term_contains(term, pred)
+
+
+def check_stash_replay_first(R, tonic, rule):
+    """EncodedBytes::poll_next: a status parked behind already-encoded frames (the Option<Status> field) is what the next poll returns,
+    before the message source is polled again — the stream ends at its first error.  Decided structurally: one take of the parked
+    status dominates every poll of the source, and when it yields Some no feasible path reaches a poll of the source."""
+    b = tonic.body(re.compile(r'codec::encode::EncodedBytes<T, U> as .*Stream>::poll_next$'))
+    R.saw(b)
+    sadt = tonic.adt('codec::encode::EncodedBytes')
+    sf = [f['n'] for f in sadt['variants'][0]['fields'] if re.search(r'Option<(crate::|tonic::)?(status::)?Status>$', f['ty'])]
+    if len(sf) != 1:
+        raise CheckError('UNRECOGNISED: EncodedBytes has %d Option<Status> fields' % len(sf))
+    sp = b.calls(pat='Stream::poll_next')
+    if not sp:
+        raise CheckError('ANCHOR-MISSING: no poll of the message source in EncodedBytes::poll_next')
+    parked = lambda t_: mentions_field(t_, sf[0]) or mentions_local_named(b, t_, sf[0])
+    takes = [(bb, t) for bb, t in b.calls() if t.get('name') in ('take', 'replace') and t['args'] and parked(b.origin(t['args'][0]))]
+    good = []
+    for bb, t in takes:
+        if not all(b.dominates(bb, x) for x, _ in sp):
+            continue
+        after_some = b.reach_ps(t['t'], know0={t['dest']['l']: ('v', 'Some', None)})
+        if not any(x in after_some for x, _ in sp):
+            good.append(bb)
+    R.check(bool(good), rule, 'parked-error-replayed-before-source', site(b, good[0]) if good else site(b, sp[0][0]),
+            'the parked status (%s) is taken and returned before the source is polled again: %d take site(s), %d of them ahead of every source poll with no poll after Some '
+            '(otherwise items the handler yields after an Err are still sent, and the error can be overwritten)' % (sf[0], len(takes), len(good)))
+
+
+def into_http_line(body, t):
+    """the request line and the sanitise flag handed to Request::into_http at call term t: {'uri','method','version','sanitize'} as origin
+    terms — whether they are passed as separate arguments or bundled in a struct (fields uri / method / version) built by the caller"""
+    args = t['args']
+    out = {'sanitize': body.origin(args[-1])}
+    if len(args) >= 5:
+        out.update(uri=body.origin(args[1]), method=body.origin(args[2]), version=body.origin(args[3]))
+        return out
+    for a_ in args[1:]:
+        ag = strip_refs(mirlib.simplify(body.origin(a_)))
+        if ag and ag[0] == 'agg' and {'uri', 'method', 'version'} <= set(ag[1].get('fields') or []):
+            out.update({n_: ag[2][ag[1]['fields'].index(n_)] for n_ in ('uri', 'method', 'version')})
+            return out
+    raise CheckError('UNRECOGNISED: Request::into_http is called with %d arguments and none is a struct of uri / method / version built at the call site (%s)' % (len(args), body.path))
+
+
+def check_partial_frame_cut(R, tonic, rule):
+    """EncodedBytes::poll_next: whatever made encode_item fail (size limit, the codec's own encode error, the compressor), the header
+    placeholder and partial payload it left in the output buffer are cut off before anything is flushed, returned or polled"""
+    b = tonic.body(re.compile(r'codec::encode::EncodedBytes<T, U> as .*Stream>::poll_next$'))
+    R.saw(b)
+    # failure arm of encode_item: truncate to the offset saved before the call
+    eb, et = b.call1(name='encode_item')
+    # what can follow a failed encode_item (its result known to be Err on the path), without passing a truncate
+    dest = et['dest']['l']
+    truncs = [(x, t) for x, t in b.calls(name='truncate') if mentions_local_named(b, b.origin(t['args'][0]), encode_buf_field(tonic))]
+    after_fail = b.reach_ps(et['t'], know0={dest: ('v', 'Err', None)})
+    uncut = b.reach_ps(et['t'], know0={dest: ('v', 'Err', None)}, removed={x for x, _ in truncs})
+    exits = [x for x in sorted(uncut) if b.term(x)['k'] == 'ret' or (b.term(x)['k'] == 'call' and b.term(x).get('name') in ('split_to', 'split', 'poll_next', 'encode_item') and x != eb)]
+    R.check(bool(truncs) and not exits, rule, 'partial-frame-cut', site(b, exits[0]) if exits else site(b, eb),
+            'after a failed encode_item every path to a flush, a return or the next poll first cuts the partial frame off (truncate sites %d; uncut exits %r)' % (len(truncs), [b.loc(x) for x in exits][:4]))
+    for tx, tt in truncs:
+        if tx not in after_fail:
+            continue
+        off = strip_refs(b.origin(tt['args'][1]))
+        okt = False
+        if is_call(off, name='len') and mentions_local_named(b, off, encode_buf_field(tonic)):
+            # saved after this iteration's source poll and before encode_item (a value hoisted out of the loop would be
+            # the length before the *first* message of the batch)
+            lb = [bb for bb, lt in b.calls(name='len') if lt is off[4]]
+            srcp = [bb for bb, st_ in b.calls(pat='Stream::poll_next')]
+            okt = bool(lb) and b.dominates(lb[0], eb) and bool(srcp) and all(b.dominates(sp_, lb[0]) for sp_ in srcp)
+        R.check(okt, rule, 'partial-frame-cut:offset', site(b, tx), 'truncate(buf, offset) with offset = buf.len() saved in the same iteration, after the source poll and before encode_item: %r' % okt)
+
+
 # ---------------------------------------------------------------- outcome tables from path rows
 def cons_view(cons, meta):
     """{subject: value} for the constraints that pin a subject: variant name for discriminants (also when all the other
